@@ -933,12 +933,12 @@ theorem pres_laterCb (st : St) (a : Nat) : Pres st (laterCb st a) := by
     · exact pres_processNotify _ _
     · exact Pres.refl _
 
-theorem pres_laterLoop (l : List Nat) : ∀ st : St, Pres st (laterLoop st l) := by
+theorem pres_laterLoopT (l : List Nat) : ∀ st : St, Pres st (laterLoopT st l).1 := by
   induction l with
   | nil => intro st; exact Pres.refl st
   | cons a rest ih =>
     intro st
-    unfold laterLoop
+    unfold laterLoopT
     split
     · exact Pres.refl _
     · split
@@ -948,6 +948,28 @@ theorem pres_laterLoop (l : List Nat) : ∀ st : St, Pres st (laterLoop st l) :=
         · split
           · exact (pres_laterCb _ _).trans (grow_fail _ _).pres
           · exact ((pres_laterCb _ _).trans (grow_free _ a).pres).trans (ih _)
+
+theorem pres_laterLoop (l : List Nat) (st : St) : Pres st (laterLoop st l) := pres_laterLoopT l st
+
+/-- The batch of deferred callbacks that was queued when the iteration began: when the loop returns
+    normally it has invoked every one of them, exactly once, in queue order. -/
+theorem laterLoopT_all (l : List Nat) : ∀ st : St, (laterLoopT st l).1.status = .ok → (laterLoopT st l).2 = l := by
+  induction l with
+  | nil => intro st _; rfl
+  | cons a rest ih =>
+    intro st
+    unfold laterLoopT
+    split
+    · rename_i h; intro hok; exact St.not_ok_absurd h hok
+    · split
+      · intro hok; exact absurd hok (St.status_fail_ne _ _)
+      · split
+        · rename_i h; intro hok; exact St.not_ok_absurd h hok
+        · split
+          · intro hok; exact absurd hok (St.status_fail_ne _ _)
+          · intro hok
+            show a :: (laterLoopT ((laterCb st a).free a) rest).2 = a :: rest
+            rw [ih _ hok]
 
 /-- The loop as shipped. -/
 theorem pres_timerLoopT (fuel : Nat) : ∀ (st : St) (now : TV) (this : Option Nat), Pres st (timerLoopT fuel st now this).1 := by
